@@ -344,6 +344,31 @@ def ellipsis_implicit_items(rng, n):
     return items
 
 
+def sized_ellipsis_items(rng, n):
+    """two ellipsis axes that each carry a size keyword and repeat a different number of times, against the written-out form;
+    the sizes as a tuple per repetition, or as one scalar when all repetitions agree"""
+    items = []
+    while len(items) < n:
+        k1, k2 = rng.choice([(1, 2), (2, 1), (2, 2), (1, 3), (3, 1), (2, 3), (1, 1)])
+        same1, same2 = rng.random() < 0.5, rng.random() < 0.5
+        d1 = [rng.choice([2, 3])] * k1 if same1 else [rng.choice([2, 3]) for _ in range(k1)]
+        d2 = [rng.choice([2, 3])] * k2 if same2 else [rng.choice([2, 3]) for _ in range(k2)]
+        s1, s2 = [rng.choice([1, 2]) for _ in range(k1)], [rng.choice([1, 2]) for _ in range(k2)]
+        x = gencalls.int_data(rng, tuple(a * b for a, b in zip(s1, d1)))
+        y = gencalls.int_data(rng, tuple(a * b for a, b in zip(s2, d2)))
+        op = rng.choice(["add", "multiply", "subtract"])
+        short = "(s ds)..., (t dt)... -> s... ds... t... dt..."
+        kw_short = {"ds": d1[0] if (same1 and rng.random() < 0.6) else tuple(d1), "dt": d2[0] if (same2 and rng.random() < 0.6) else tuple(d2)}
+        sn, dn = [f"s{i}" for i in range(k1)], [f"ds{i}" for i in range(k1)]
+        tn, en = [f"t{i}" for i in range(k2)], [f"dt{i}" for i in range(k2)]
+        long_ = (" ".join(f"({a} {b})" for a, b in zip(sn, dn)) + ", " + " ".join(f"({a} {b})" for a, b in zip(tn, en))
+                 + " -> " + " ".join(sn + dn + tn + en))
+        kw_long = {**dict(zip(dn, d1)), **dict(zip(en, d2))}
+        c = gencalls.Call("elementwise", op, [], [], [x, y], desc=short)
+        items.append((c, "sized_ellipses_of_different_rank", short, kw_short, long_, kw_long))
+    return items
+
+
 def make_items(rng, n):
     items = []
     tries = 0
@@ -358,7 +383,7 @@ def make_items(rng, n):
         if p is None:
             continue
         items.append((c,) + p)
-    return items + ellipsis_implicit_items(rng, max(8, n // 25))
+    return items + ellipsis_implicit_items(rng, max(8, n // 25)) + sized_ellipsis_items(rng, max(8, n // 25))
 
 
 def run(ctx):
